@@ -234,7 +234,8 @@ Definition deliver_ctl (r : rob) (cs : list cmsg) : rob :=
 
 Record tick_obs := mk_tobs {
   to_progress : bool; to_top : list trsp; to_bot : list sreq; to_ctl : list crsp; to_ntrans : N; to_cstate : N;
-  to_ntop : nat; to_nbot : nat; to_nctl : nat }.   (* how many of the scripted deliveries the ports took *)
+  to_ntop : nat; to_nbot : nat; to_nctl : nat;     (* how many of the scripted deliveries the ports took *)
+  to_ctlq : nat }.   (* Control outgoing buffer length right after the Tick, before the drains *)
 
 Definition env_step (r : rob) (i : instant) : rob * tick_obs :=
   let rk := if i_ckpt i then ckpt_roundtrip r else r in
@@ -250,7 +251,7 @@ Definition env_step (r : rob) (i : instant) : rob * tick_obs :=
                (firstn (i_drain_ctl i) (r_ctl_out r1))
                (N.of_nat (length (r_trans r1))) (r_cstate r1)
                (length (r_top_in ra) - length (r_top_in rk)) (length (r_bot_in rb) - length (r_bot_in ra))
-               (length (r_ctl_in r0) - length (r_ctl_in rb))).
+               (length (r_ctl_in r0) - length (r_ctl_in rb)) (length (r_ctl_out r1))).
 
 Fixpoint env_run (r : rob) (s : list instant) : rob * list tick_obs :=
   match s with
